@@ -323,8 +323,26 @@ def malformed_cases(r, n):
             if r.chance(1, 4):
                 line = mutate(r, line)
         pid = r.choice(PIDS_ODD) if r.chance(1, 3) else r.choice(PIDS_OK)
-        out.append({"form": None, "fields": None, "pid": pid, "line": line, "ok": "ok",
+        out.append({"form": None, "fields": None, "pid": pid, "line": line, "ok": r.choice(["ok", "ok", "ok", "fail"]),
                     "h": r.choice(["ready", "ready", "cancel"])})
+    return out
+
+
+SUFFIXES = [", method info", " ID", " ID ", " ID bob", " ID bob (serial", " ID bob (serial 12) CA", " ID bob (serial x) CA ED25519 SHA256:abc",
+            " trailing", "  ", " x", " ID  (serial 1) CA RSA SHA256:x", ": extra", " ID a b c (serial 99999999999999999999) CA ED25519 SHA256:z"]
+
+
+def accepted_with_suffix(r, n):
+    """accepted public-key / password lines followed by text that is not (quite) a certificate identifier:
+    the branches between 'plain key' and 'key with CA'; with every write / hand-off outcome"""
+    out = []
+    for i in range(n):
+        form = ("acceptedKey", "acceptedKey", "acceptedPassword")[i % 3]
+        line = build(form, fields_for(r, form)) + r.choice(SUFFIXES)
+        if r.chance(1, 5):
+            line = mutate(r, line)
+        out.append({"form": None, "fields": None, "pid": r.choice(PIDS_OK + PIDS_ODD[:3]), "line": line,
+                    "ok": r.choice(["ok", "fail"]), "h": r.choice(["ready", "ready", "cancel"])})
     return out
 
 
